@@ -20,6 +20,7 @@ import (
 	"github.com/prometheus/common/promslog"
 
 	"github.com/prometheus/prometheus/config"
+	"github.com/prometheus/prometheus/model/histogram"
 	"github.com/prometheus/prometheus/model/labels"
 	"github.com/prometheus/prometheus/model/relabel"
 	"github.com/prometheus/prometheus/prompb"
@@ -192,6 +193,12 @@ func (c *fakeClient) Store(ctx context.Context, req []byte, _ int) (remote.Write
 		for _, s := range ts.Samples {
 			items = append(items, recItem{id: int64(s.Value), lbls: ls})
 		}
+		for _, e := range ts.Exemplars {
+			items = append(items, recItem{id: int64(e.Value), lbls: ls})
+		}
+		for _, h := range ts.Histograms {
+			items = append(items, recItem{id: int64(h.Sum), lbls: ls})
+		}
 	}
 	outcome := 0
 	block := c.blockAfter >= 0 && len(c.reqs) >= c.blockAfter
@@ -252,6 +259,7 @@ type action struct {
 type sampleSpec struct {
 	series int // index into specs, or -1: a ref that is never stored
 	old    bool
+	kind   int // 0 float sample, 1 exemplar, 2 native histogram
 }
 
 type concDesc struct {
@@ -336,6 +344,8 @@ func runConc(id int, seed uint64, idx int, outDir string, cf *gallina.CaseFile, 
 	ageLimit := r.Chance(1, 3)
 	// a quarter of the runs go through a real WAL read by the queue manager's own watcher
 	wal := !hard && r.Chance(1, 4)
+	// half of the direct-feed runs mix float samples, exemplars and native histograms
+	kinds := !wal && r.Chance(1, 2)
 	if wal {
 		ageLimit = false                  // the watcher itself skips samples older than its start
 		deadline = 400 * time.Millisecond // the last partial batch is sent by the timer before Stop
@@ -475,6 +485,14 @@ func runConc(id int, seed uint64, idx int, outDir string, cf *gallina.CaseFile, 
 				if ageLimit && r.Chance(1, 10) {
 					sp.old = true
 				}
+				if kinds {
+					switch c := r.Intn(10); {
+					case c < 2:
+						sp.kind = 1
+					case c < 4:
+						sp.kind = 2
+					}
+				}
 				ss = append(ss, sp)
 			}
 			total += k
@@ -510,7 +528,7 @@ func runConc(id int, seed uint64, idx int, outDir string, cf *gallina.CaseFile, 
 		_ = lvl.Set("debug")
 		logger = promslog.New(&promslog.Config{Level: lvl})
 	}
-	qm := remote.VerifNewQueueManager(logger, dir, cfg, mapLabels(ext), rcfgs, cl, flushDeadline, false, false, false)
+	qm := remote.VerifNewQueueManager(logger, dir, cfg, mapLabels(ext), rcfgs, cl, flushDeadline, kinds, kinds, false)
 
 	// mirror of the series bookkeeping, to classify each sample
 	type known struct {
@@ -644,7 +662,33 @@ func runConc(id int, seed uint64, idx int, outDir string, cf *gallina.CaseFile, 
 				}
 			case 'A':
 				var ss []record.RefSample
+				var es []record.RefExemplar
+				var hs []record.RefHistogramSample
+				lastKind := 0
+				flush := func() { // one Append* call per maximal run of one kind, in order
+					switch {
+					case len(es) > 0:
+						if !qm.AppendExemplars(es) {
+							appendOK = false
+						}
+						es = nil
+					case len(hs) > 0:
+						if !qm.AppendHistograms(hs) {
+							appendOK = false
+						}
+						hs = nil
+					case len(ss) > 0 && kinds:
+						if !qm.Append(ss) {
+							appendOK = false
+						}
+						ss = nil
+					}
+				}
 				for _, sp := range a.samples {
+					if kinds && sp.kind != lastKind {
+						flush()
+						lastKind = sp.kind
+					}
 					sid := int64(len(fed))
 					ref := neverRef
 					if sp.series >= 0 {
@@ -665,15 +709,26 @@ func runConc(id int, seed uint64, idx int, outDir string, cf *gallina.CaseFile, 
 					}
 					fed = append(fed, gallina.Pair(gallina.ZU(ref), gallina.Z(int64(class))))
 					fedClass[class]++
-					ss = append(ss, record.RefSample{Ref: chunks.HeadSeriesRef(ref), T: t, V: float64(sid)})
+					switch sp.kind {
+					case 1:
+						es = append(es, record.RefExemplar{Ref: chunks.HeadSeriesRef(ref), T: t, V: float64(sid), Labels: labels.FromStrings("trace_id", strconv.FormatInt(sid, 10))})
+					case 2:
+						hs = append(hs, record.RefHistogramSample{Ref: chunks.HeadSeriesRef(ref), T: t, H: &histogram.Histogram{
+							Count: 1, Sum: float64(sid), PositiveSpans: []histogram.Span{{Offset: 0, Length: 1}}, PositiveBuckets: []int64{1}}})
+					default:
+						ss = append(ss, record.RefSample{Ref: chunks.HeadSeriesRef(ref), T: t, V: float64(sid)})
+					}
+				}
+				if kinds {
+					flush()
 				}
 				if wal {
 					must(wl.Log(enc.Samples(ss, nil)))
 					qm.VerifNotify()
-				} else if !qm.Append(ss) {
+				} else if !kinds && !qm.Append(ss) {
 					appendOK = false
 				}
-				progress.Add(int64(len(ss)))
+				progress.Add(int64(len(a.samples)))
 				if r.Chance(1, 4) {
 					time.Sleep(time.Duration(r.Intn(400)) * time.Microsecond)
 				}
@@ -743,10 +798,17 @@ func runConc(id int, seed uint64, idx int, outDir string, cf *gallina.CaseFile, 
 		meta.GoViol = append(meta.GoViol, gallina.GoViolation{ID: strconv.Itoa(id), Shape: "append-false", What: "Append returned false before Stop"})
 	}
 
-	sentC, failedC, retriedC, _, droppedV := qm.VerifCounters()
+	sentK, failedK, retriedK, droppedK := qm.VerifCountersByKind()
 	ro, rd, ru := remote.VerifDropReasons()
-	cnt := []int64{counterValue(sentC), counterValue(failedC), counterValue(retriedC),
-		counterValue(droppedV.WithLabelValues(ro)), counterValue(droppedV.WithLabelValues(rd)), counterValue(droppedV.WithLabelValues(ru))}
+	cnt := make([]int64, 6) // samples + exemplars + histograms
+	for k := 0; k < 3; k++ {
+		cnt[0] += counterValue(sentK[k])
+		cnt[1] += counterValue(failedK[k])
+		cnt[2] += counterValue(retriedK[k])
+		cnt[3] += counterValue(droppedK[k].WithLabelValues(ro))
+		cnt[4] += counterValue(droppedK[k].WithLabelValues(rd))
+		cnt[5] += counterValue(droppedK[k].WithLabelValues(ru))
+	}
 
 	cl.mu.Lock()
 	reqs := cl.reqs
@@ -832,6 +894,9 @@ func runConc(id int, seed uint64, idx int, outDir string, cf *gallina.CaseFile, 
 	}
 	if len(ext) > 0 {
 		meta.Hit("conc:external-labels")
+	}
+	if kinds {
+		meta.Hit("conc:exemplars-histograms")
 	}
 	if capa < bsz {
 		meta.Hit("conc:capacity-below-batch")
